@@ -174,7 +174,15 @@ def build(spec, task_hashes=None, comp_hashes=None, junk=0):
             ),
         )
         if t.get("sub"):
-            kw.pop("auto_task")
+            sub = t["sub"] if isinstance(t["sub"], dict) else {}
+            if "unit_s" in sub:
+                kw["unit_timedelta"] = datetime.timedelta(seconds=sub["unit_s"])
+            if "file" in sub:
+                kw["file_path"] = sub["file"]
+            if "read" in sub:
+                kw["read_json_file"] = bool(sub["read"])
+            if "rm_abs" in sub:
+                kw["remove_absence_time_list"] = bool(sub["rm_abs"])
             task = BaseSubProjectTask(**kw)
         elif task_hashes is not None:
             task = HTask(**kw)
